@@ -629,3 +629,31 @@ def coverage_extra(tier, seed, results):
         pl = r["cfg"]["plane"]
         planes[pl] = planes.get(pl, 0) + 1
     return {"cases_per_plane": planes}
+
+# ---- call-order plane (executed by mc/core.py in fresh interpreters, see mc/props/_hist_common.py): the result of
+# a call must not depend on which other calls (other dtype / method / size / options) were made before it
+_HIST_LABELS = [('float32', 'custom_exactsolve', 'exactsolve'), ('float64', 'custom_exactsolve', 'exactsolve'), ('float64', 'cg', 'cg'), ('complex128', 'custom_exactsolve', 'exactsolve'), ('float64', 'exactsolve', 'exactsolve')]
+HISTORY = {"labels": ["/".join(str(x) for x in c) for c in _HIST_LABELS], "tol": [0.001, 1e-10, 1e-07, 1e-10, 1e-10],
+           "depth": {"quick": 2, "thorough": 3},
+           "prelude": r'''import torch, xitorch
+from xitorch import LinearOperator
+from xitorch.linalg import solve
+CALLS = %r
+def do(i):
+    dtn, fwd, bck = CALLS[i]
+    dt = getattr(torch, dtn)
+    g = torch.Generator().manual_seed(11)
+    n = 6
+    A0 = torch.randn((n, n), generator=g, dtype=torch.float64)
+    A = (A0 @ A0.T / n + torch.eye(n, dtype=torch.float64) * 2.0).to(dt).requires_grad_()
+    B = torch.randn((n, 2), generator=g, dtype=torch.float64).to(dt).requires_grad_()
+    o = {} if fwd in ("exactsolve", "custom_exactsolve") else {"rtol": 1e-12, "atol": 1e-14, "max_niter": 80}
+    b = {"method": bck} if bck == "exactsolve" else {"method": bck, "rtol": 1e-12, "atol": 1e-14, "max_niter": 80}
+    torch.manual_seed(0)
+    As = (A + A.transpose(-2, -1).conj()) / 2
+    x = solve(LinearOperator.m(As, is_hermitian=True), B, method=fwd, bck_options=b, **o)
+    gA, gB = torch.autograd.grad((x.abs() ** 2).sum(), (A, B))
+    out = torch.cat([gA.reshape(-1), gB.reshape(-1)])
+    out = torch.view_as_real(out) if out.is_complex() else out
+    return out.double().reshape(-1).tolist()
+''' % (_HIST_LABELS,)}
